@@ -23,7 +23,12 @@ EXPLANATION = (
     "strings of the same length); R16b conservation (the leaves of the scheme are exactly the tensors and deltas of the "
     "term, exponent-many times, numbers and symbols skipped, negative exponents and foreign objects refused; the final "
     "contraction carries the requested target indices - term.target or get_symbols(target_indices, target_spin) - in "
-    "the requested order); R16c split (index is target iff it occurs once in the contraction or is a target of the "
+    "the requested order; divisions by symbols, tensors or deltas are refused whatever other prefactors stand next to "
+    "them, numbers with negative exponent are plain prefactors; every operand is an object of the term or an earlier "
+    "result read with exactly the index order it was stored with, also when a result-shaped intermediate meets "
+    "remaining scalar factors under a permuted target order; call history: optimize_contractions / "
+    "unoptimized_contraction called for the same objects with other targets, target order or limits one after another "
+    "on one path - module and class level state is evaluated state - return what each call returns alone); R16c split (index is target iff it occurs once in the contraction or is a target of the "
     "term; both groups canonically sorted; result-shaped contraction adopts the requested order); R16d scaling "
     "(computational = contracted + target and memory = target per space and in total, the chosen scheme minimises "
     "(max, multiplicity of max) per field total/general/virt/occ, computational before memory, over the generated "
@@ -587,6 +592,10 @@ def scheme_findings(spec, recs, final=True):
                 if ix != produced[n].target:
                     out.append(("R16f", "pool indices", f"{r.show()}: the intermediate {n} was produced with the indices "
                                 f"{fmt(produced[n].target)} but is consumed with {fmt(ix)}"))
+                    out.append(("R16b", "operand indices", f"{r.show()}: the operand {n} is the result of an earlier "
+                                f"contraction stored with the index order {fmt(produced[n].target)}, but it is read with "
+                                f"{fmt(ix)} (every operand is an object of the term or an earlier result with exactly the "
+                                "indices it carries)"))
             elif n in names:
                 out.append(("R16f", "order", f"{r.show()}: {n} is consumed before it is produced"))
             else:
@@ -710,6 +719,13 @@ QUICK = [
     S("doubled pair first n 3", [("B", "jk", 2), ("A", "ij"), ("C", "ik")], max_n=3),
     S("rank four", [("A", "aj"), ("B", "bj"), ("C", "qa"), ("D", "qb")]),
     S("elementwise after a contraction of the same spaces", [("A", "il"), ("B", "jl"), ("C", "ij")], target="ij"),
+    S("result-shaped intermediate, scalar factor left, permuted", [("A", "jb"), ("T", "ijab"), ("C", "kc"), ("D", "kc")], target="ai"),
+    S("result-shaped intermediate, scalar factor left, canonical", [("A", "jb"), ("T", "ijab"), ("C", "kc"), ("D", "kc")], target="ia"),
+    S("result-shaped outer product, scalar factor left, permuted", [("t1", "ia"), ("t1", "jb"), ("X", "kc", 2)], target="bjai"),
+    S("result-shaped intermediate, delta trace left, permuted", [("V", "ijab"), ("Y", "jb"), ("delta", "kk")], target="ai"),
+    S("result-shaped intermediate, spin, permuted", [("A", "jb", 1, "tensor", "ab"), ("T", "ijab", 1, "tensor", "baab"),
+                                                     ("C", "k", 1, "tensor", "a"), ("D", "k", 1, "tensor", "a")], target="ai", spin="ab"),
+    S("number**-1 next to a symbol", [("2", "", -1, "number"), ("c", "", 1, "symbol"), ("t1", "ia"), ("Y", "ia")]),
     S("n 2", [("f", "ij"), ("t1", "ja"), ("Y", "ab"), ("Z", "bk")], max_n=2),
     S("single", [("V", "ijab")]),
     S("single permuted", [("V", "ijab")], target="abij"),
@@ -747,6 +763,12 @@ def limit_family(tier):
 REFUSED = [
     S("division", [("V", "ijab"), ("t2", "abij", -1)]),
     S("inverse square", [("e", "ia", -2), ("t1", "ia")]),
+    S("symbol**-1", [("A", "ia"), ("w", "", -1, "symbol")]),
+    S("symbol**-2", [("V", "ijab"), ("t2", "abij"), ("w", "", -2, "symbol")]),
+    S("symbol**-1 first", [("w", "", -1, "symbol"), ("3", "", 1, "number"), ("A", "ia"), ("B", "ia")]),
+    S("number**-1 and symbol**-1", [("2", "", -1, "number"), ("w", "", -1, "symbol"), ("A", "ia")]),
+    S("tensor**-1 alone", [("e", "ia", -1)]),
+    S("delta**-1", [("V", "ijab"), ("delta", "ij", -1)]),
     S("operator", [("V", "ijab"), ("a", "i", 1, "operator")]),
     S("polynom", [("V", "ijab"), ("poly", "ia", 1, "polynom")]),
 ]
@@ -953,6 +975,107 @@ def r16b(ctx):
                       f"{fname}({spec.describe()}): a term with a division or an object that is neither tensor, delta nor "
                       f"prefactor must be refused with NotImplementedError, but the function {got}",
                       key=f"{fname} | refused {spec.label}")
+    r16b_history(ctx)
+
+
+# call histories of the public functions: (label, objects, [requests]) - the same objects requested one after another in
+# one process with other targets / target order / limits; every request is a dict of Spec keywords
+CALL_HISTORY = [
+    ("A_ijab B_jb", [("A", "ijab"), ("B", "jb")], [dict(target="ia"), dict(target="ai")]),
+    ("A_ia B_ia", [("A", "ia"), ("B", "ia")], [dict(target=""), dict(target="ia"), dict(target="ai")]),
+    ("batch", [("A", "ika"), ("B", "kja")], [dict(target="ij"), dict(target="ikj")]),
+    ("chain", [("f", "ij"), ("t1", "ja"), ("Y", "ab")], [dict(target="ib"), dict(target="bi"), dict(target="ib", max_n=2)]),
+    ("four objects", [("A", "cj"), ("B", "kiba"), ("C", "jid"), ("D", "kabc")],
+     [dict(target="d"), dict(target="d", max_dim=2), dict(target="d", max_n=2)]),
+    ("hub of four", [("A", "ij"), ("B", "i"), ("C", "ija"), ("D", "jb"), ("F", "jc")],
+     [dict(target="abc", max_n=5), dict(target="abc", max_n=4), dict(target="cba")]),
+    ("spin", [("A", "ia", 1, "tensor", "ab"), ("B", "aj", 1, "tensor", "bb")],
+     [dict(target="ji", spin="ba"), dict(target="ij", spin="ab")]),
+]
+
+
+def normal_form(recs):
+    """a scheme as plain data, the generated result names replaced by their position in the scheme"""
+    pos = {r.cname: f"#{k}" for k, r in enumerate(recs)}
+    return [(tuple(pos.get(n, n) for n in r.names), r.indices, r.contracted, r.target,
+             tuple(sorted((p, tuple(sorted(v.items()))) for p, v in r.scaling.items()))) for r in recs]
+
+
+def call_history(ctx, fname, specs):
+    """`fname` called for `specs` one after another in one process (shared indices, shared module/class state)
+    -> per call ('scheme', records) | ('raise', name) | ('malformed', message)"""
+    fn = ctx.model.fn(OC + fname)
+    run = Run(ctx.model, f"{fname} history " + " ; ".join(sp.describe() for sp in specs))
+    params = {p.arg for p in fn.args.args + fn.args.kwonlyargs}
+
+    def args_list():
+        out = []
+        for sp in specs:
+            a = dict(term=build_term(run.world, sp), target_indices=sp.target, target_spin=sp.spin)
+            if "max_itmd_dim" in params:
+                a["max_itmd_dim"] = sp.max_dim
+            if "max_n_simultaneous_contracted" in params:
+                a["max_n_simultaneous_contracted"] = sp.max_n
+            out.append(a)
+        return out
+    try:
+        outs = run.sx.run_sequence([fn] * len(specs), args_list)
+    except Malformed as e:
+        return [("malformed", e.msg)] * len(specs)
+    if len(outs) != 1:
+        raise AnalysisError(f"C16({run.what}): the evaluation depends on something outside the modelled vocabulary")
+    res = []
+    for kind, v in outs[0].value:
+        if kind != "return":
+            res.append(("raise", v))
+        elif not isinstance(v, list):
+            res.append(("malformed", f"returns `{show_val(v)}`"))
+        else:
+            try:
+                res.append(("scheme", [Rec(run.world, o) for o in v]))
+            except Malformed as e:
+                res.append(("malformed", e.msg))
+    return res
+
+
+def r16b_history(ctx):
+    """What a call returns is a function of its arguments alone: the scheme for a term after other terms (the same
+    objects with other targets, target order or limits) were optimised in the same process equals the scheme alone."""
+    rule = "R16b"
+    n = 0
+    for fname in FUNCS:
+        fn = ctx.model.fn(OC + fname)
+        for label, objs, reqs in CALL_HISTORY:
+            if fname != "optimize_contractions":
+                reqs = [r for r in reqs if "max_n" not in r and "max_dim" not in r]
+            specs = [S(f"{label} {k}", objs, **r) for k, r in enumerate(reqs)]
+            seqs = [(a, b) for a in range(len(specs)) for b in range(len(specs)) if a != b]
+            seqs += [tuple(range(len(specs))), tuple(reversed(range(len(specs))))] if len(specs) > 2 else []
+            for seq in seqs:
+                res = call_history(ctx, fname, [specs[k] for k in seq])
+                bad = []
+                for pos, (k, r) in enumerate(zip(seq, res)):
+                    alone = evaluated(ctx, specs[k], fname)
+                    what = f"call {pos + 1} ({specs[k].describe()})"
+                    if alone.error is not None:
+                        continue            # reported by the scenario rules
+                    if alone.kind == "raise":
+                        if r != ("raise", alone.value):
+                            bad.append(f"{what}: alone it raises {alone.value}, in this history: {r[0]} "
+                                       f"{r[1] if r[0] != 'scheme' else [x.show() for x in r[1]]}")
+                        continue
+                    if r[0] != "scheme":
+                        bad.append(f"{what}: alone it returns a scheme, in this history: {r[0]} {r[1]}")
+                    elif normal_form(r[1]) != normal_form(alone.recs):
+                        more = [m for _, _, m in scheme_findings(specs[k], r[1])][:2] if r[1] else []
+                        bad.append(f"{what} returns [{'; '.join(x.show() for x in r[1])}], alone it returns "
+                                   f"[{'; '.join(x.show() for x in alone.recs)}]" + ("".join(" - " + m for m in more)))
+                n += 1
+                hist = " ; ".join(specs[k].describe() for k in seq)
+                ctx.check(rule, fn, not bad, f"{fname} history [{hist}]: every call returns what it returns alone",
+                          f"{fname} called one after another in one process [{hist}]: " + " | ".join(bad) +
+                          " - the result of a call must not depend on the calls before it", key=f"{fname} | history {label} {seq}")
+    floor(ctx, rule, "call histories", n, 40)
 
 
 def r16c(ctx):
